@@ -25,6 +25,24 @@
 (*        missing targets, statements that wait for each other in a cycle)  *)
 (*        written at place pl (module level of pkg / of a sub-module /      *)
 (*        inside a function body) of a fixed package                        *)
+(*  tpath a type written as a path over the declared names of a small       *)
+(*        package (generic record / enum and their type parameters, plain   *)
+(*        record / enum, fields, variants, a function, a constant, a        *)
+(*        module and its types, an imported type, built-in types, pkg,      *)
+(*        super, an undeclared name): every path of <= tplen segments, with *)
+(*        type arguments / `?` in form a (none, after the last segment,     *)
+(*        after the first segment, ...), at every place pl where the        *)
+(*        grammar has a type (let annotation, parameter, return type,       *)
+(*        record field, enum payload, type argument, constant type, field   *)
+(*        of a generic declaration, anonymous record field, filtermap       *)
+(*        parameter)                                                        *)
+(*  graph wide and deep reference graphs inside the supported program size: *)
+(*        d layers of w items, every item of layer i refers to every item   *)
+(*        of layer i + 1 (w^d paths through w * d <= gmaxitems one-line     *)
+(*        items, no nesting, no recursion); shape s says what the items are *)
+(*        (functions below a constant / below a function, constants,        *)
+(*        functions above a constant, record types, instantiations of a     *)
+(*        generic record)                                                   *)
 (*                                                                          *)
 (* A descriptor is [fam, p] with p a tuple of numbers; lib/checks/c06.py    *)
 (* renders it to source text / files (representation mapping only).         *)
@@ -95,6 +113,29 @@ InfInputs(F) == {DX("inf", <<v, st>> \o w, "report", <<>>) : v \in 1..F.ninfvar,
 
 ImpInputs(F) == {D("imp", <<pl>> \o t) : pl \in 1..F.nimpplace, t \in Tuples(1..F.nimp, F.implen) \ {<<>>}}
 
+(* tpath: p = <<pl, a>> \o t, t a non-empty tuple of <= tplen name indices (ntpname declared names). *)
+(* The argument forms a <= tpargfull are combined with every path; the others, and (tplenfull <       *)
+(* tplen) the longest paths, only with the paths F.tpfocus allows: a form > tpargfull needs a first   *)
+(* segment in tpgeneric (the names whose type takes arguments), a path longer than tplenfull needs    *)
+(* the plain form and a first segment in tphead (the names that have members: pkg, super, a module,   *)
+(* generic and plain types, a type parameter).  No expectation beyond the outcome machine: package or report.                     *)
+TPathOk(F, a, u) == /\ (a > F.tpargfull => u[1] \in Elems(F.tpgeneric))
+                    /\ (Len(u) > F.tplenfull => a = 1 /\ u[1] \in Elems(F.tphead))
+TPathInputs(F) ==
+  UNION {{D("tpath", <<pl, a>> \o t) : pl \in 1..F.ntplace,
+                                        t \in {u \in Tuples(1..F.ntpname, F.tplen) \ {<<>>} : TPathOk(F, a, u)}}
+         : a \in 1..F.ntparg}
+
+(* graph: p = <<s, w, d>>: shape s \in 1..ngshape, w <= gshapew[s] items per layer (gshapew[s]: the   *)
+(* widest layer of shape s), d \in gdepths layers, w * d <= gmaxitems and d <= MaxDepth (the chain of  *)
+(* references is as long as the graph is deep).  Compile time must stay bounded: the only outcomes    *)
+(* are those of the outcome machine (a run that does not end is not a behaviour).                     *)
+GraphInputs(F) ==
+  {D("graph", <<s, w, d>>) : s \in 1..F.ngshape,
+                             w \in {y \in 1..F.gwidth : \E z \in 1..F.ngshape : y <= F.gshapew[z]},
+                             d \in {x \in Elems(F.gdepths) : x <= MaxDepth}}
+GraphOk(F, x) == x.p[2] <= F.gshapew[x.p[1]] /\ x.p[2] * x.p[3] <= F.gmaxitems
+
 (* x is an input of one of the families (written as a disjunction: the sets are never united) *)
 IsInput(F, x) ==
   \/ \E i \in 1..Len(F.plans) : x \in SeqPlan(F, F.plans[i])
@@ -110,6 +151,8 @@ IsInput(F, x) ==
                                                      ELSE y.p[3] = 1 \/ y.p[1] = 2)}
   \/ x \in InfInputs(F)
   \/ x \in ImpInputs(F)
+  \/ x \in TPathInputs(F)
+  \/ x \in {y \in GraphInputs(F) : GraphOk(F, y)}
 
 (* candidate spans of an abstract report over a file of 3 bytes "a" + 2-byte character *)
 Cand == {[file |-> 0, len |-> 3, start |-> s, end |-> e, ok |-> (s \in {0, 1, 3} /\ e \in {0, 1, 3})] : s \in 0..4, e \in 0..4}
